@@ -488,6 +488,8 @@ class Engine:
             if not args:
                 return set()
             v = args[0]
+            if hasattr(v, "pyvc_contains"):
+                return v
             if isinstance(v, (list, tuple, set)):
                 if I.all_concrete(list(v)):
                     return set(v)
@@ -517,6 +519,8 @@ class Engine:
             return out
         if fn is any or fn is all:
             v = args[0]
+            if isinstance(v, SymComp):
+                return v.quantify(fn is all)
             if isinstance(v, (list, tuple)):
                 bs = [zbool(x) for x in v]
                 return zor(*bs) if fn is any else zand(*bs)
@@ -602,6 +606,12 @@ class Engine:
         if seq is None and not g.ifs and isinstance(g.target, ast.Name) and isinstance(n.elt, ast.Name) \
                 and n.elt.id == g.target.id and kind in ("gen", "list"):
             return it  # identity comprehension over a symbolic iterable
+        if seq is None and not g.ifs:
+            try:
+                length, getter = self.symbolic_iter(I, it)
+                return SymComp(I, n, fr, g, length, getter)
+            except Unsupported:
+                pass
         if seq is None:
             h = self.contract.callees.get(("comprehension", n.lineno))
             if h:
@@ -975,6 +985,28 @@ class Engine:
             if npaths > contract.max_paths:
                 raise Unsupported(f"path bound {contract.max_paths} exceeded for {contract.target}")
         return fn, node, all_obs, outcomes, {"paths": npaths, "pruned": pruned}
+
+
+class SymComp:
+    """`elt for x in <symbolic iterable>` - only meaningful under any()/all(): becomes a quantifier. The element expression
+    must evaluate without forking (a fork inside a quantifier is unsupported)."""
+
+    def __init__(self, I, node, fr, gen, length, getter):
+        self.I, self.node, self.fr, self.gen, self.length, self.getter = I, node, fr, gen, length, getter
+
+    def quantify(self, universal):
+        I = self.I
+        j = z3.Int(fresh_name("q"))
+        sub = Frame(self.fr.fn_name, self.fr.globs, parent=self.fr)
+        I.assign_target(self.gen.target, self.getter(j), sub)
+        before = len(I.ctx.decisions)
+        body = zbool(I.eval(self.node.elt, sub))
+        if len(I.ctx.decisions) != before:
+            raise Unsupported("comprehension element forks inside any()/all()")
+        if isinstance(body, bool):
+            body = z3.BoolVal(body)
+        rng = z3.And(j >= 0, j < self.length)
+        return z3.ForAll([j], z3.Implies(rng, body)) if universal else z3.Exists([j], z3.And(rng, body))
 
 
 class _Unhavocked:
